@@ -63,6 +63,21 @@ def gen_out_fg(rng, tier):
                                 nl = (abs(m).bit_length() + (e % 64) + 63) // 64
                                 bits = max(bits, 64 * max(nl - 1, 1))
                                 yield "cxx_io_out_fg %x 0 %s %x %s %x %s" % (bf | ff | spt | sp | up | adj | sb, hx(w), fill, hx(prec), bits, fval(m, e))
+    # fixed format, the digit after the last kept one exactly (base+1)/2 or one less, after a chain of base-1 digits (carry up to a new leading 1)
+    for b, bf, half in ((16, F_HEX, 8), (8, F_OCT, 4), (10, F_DEC, 5)):
+        for chain in (0, 1, 3):
+            for prec in (0, 1, 2):
+                for nxt in (half - 1, half, half + 1):
+                    for lead in (1, b - 1):
+                        # digits: lead, (b-1) x chain ... with `prec` fraction digits, then nxt
+                        ds = [lead] + [b - 1] * (chain + prec) + [nxt]
+                        m = 0
+                        for d in ds: m = m * b + d
+                        if b == 10: m, e2 = m * (1 << 80) // (10 ** (prec + 1)) | 1, -80      # not exact in binary: close from above
+                        else: e2 = -(prec + 1) * (4 if b == 16 else 3)
+                        for sgn in (1, -1):
+                            yield "cxx_io_out_fg %x 0 0 20 %x c0 %s" % (bf | F_FIXED | (F_SHOWBASE if chain == 1 else 0), prec, fval(sgn * m, e2))
+                            yield "cxx_io_out_fg %x 0 0 20 %x c0 %s" % (bf | F_SCI | (F_UPPER if chain == 3 else 0), chain + prec, fval(sgn * m, e2))
     # stream states, NUL fill with every adjustment
     for st in range(1, 8):
         yield "cxx_io_out_fg %x %x 8 2a 6 40 %s" % (F_HEX | F_SHOWBASE, st, fval(255, -4))
